@@ -548,6 +548,7 @@ pub fn all_seeds() -> Vec<Seed> {
     v.push(seed_sliding_window(5, 2));
     v.push(seed_sliding_window(8, 2));
     v.extend(long_history_seeds());
+    v.push(seed_zero_only());
     v
 }
 
@@ -650,6 +651,21 @@ pub fn seed_hoarder_big(n: usize) -> Seed {
     let mut s = p.seed(&format!("hoarder-big:a retains {} records of 400-600 bytes", n));
     s.predicted_cursor = None;
     s
+}
+
+/// Queues a and b hold nothing but zero-length records (a: one single append and a batch of two;
+/// b: one), written into file 1; then the filler is emptied and the GC pass deletes file 0 (which
+/// held the creation entries) and records the positions of the empty queues: "no payload bytes"
+/// is not "no records".
+pub fn seed_zero_only() -> Seed {
+    let mut p = Planner::new();
+    p.push(Op::Create(QA)).push(Op::Create(QB)).push(Op::Create(QF));
+    p.fill_to(FILE + BLOCK);
+    p.push(Op::app(QA, Pos::Auto, Sz::S0));
+    p.push(Op::Append { q: QA, pos: Pos::Auto, sizes: vec![Sz::S0, Sz::S0] });
+    p.push(Op::app(QB, Pos::Auto, Sz::S0));
+    p.push(Op::Trunc { q: QF, at: Tr::Last });
+    p.seed("zero-only:a and b hold only zero-length records (file 1); file 0 has just been collected")
 }
 
 pub fn long_history_seeds() -> Vec<Seed> {
